@@ -82,6 +82,18 @@ def _h2norm_slycot(sys, print_warning=True):
 
 #------------------------------------------------------------------------------
 
+def _psd_tol(P):
+    """Threshold below which an eigenvalue of a Gramian counts as negative.
+
+    The Gramian of a stable system that is not controllable is singular, so
+    its zero eigenvalues are computed as numbers of the order of the machine
+    precision times the norm of P, of either sign.
+
+    """
+    return np.sqrt(np.finfo(float).eps) * la.norm(P)
+
+#------------------------------------------------------------------------------
+
 def system_norm(system, p=2, tol=1e-6, print_warning=True, method=None):
     """Computes the input/output norm of system.
 
@@ -177,7 +189,7 @@ def system_norm(system, p=2, tol=1e-6, print_warning=True, method=None):
                     # System is stable to reach this point, and P should be
                     # positive semi-definite.  Test next is a precaution in
                     # case the Lyapunov equation is ill conditioned.
-                    if any(la.eigvals(P).real < 0.0):
+                    if any(la.eigvals(P).real < -_psd_tol(P)):
                         if print_warning:
                             warnings.warn(
                                 "There appears to be poles close to the "
@@ -224,7 +236,7 @@ def system_norm(system, p=2, tol=1e-6, print_warning=True, method=None):
                 # System is stable to reach this point, and P should be
                 # positive semi-definite.  Test next is a precaution in
                 # case the Lyapunov equation is ill conditioned.
-                if any(la.eigvals(P).real < 0.0):
+                if any(la.eigvals(P).real < -_psd_tol(P)):
                     if print_warning:
                         warnings.warn(
                             "There appears to be poles close to the complex "
